@@ -868,7 +868,7 @@ def contained_in(a):
             continue
         mv = calls(p, "match_value")
         if mv:
-            fn_ok = len(mv[0][2]) == 3 and mv[0][2][2] == ("fn", "compare_eq") or (len(mv[0][2]) == 3 and mv[0][2][2][0] == "opaque")
+            fn_ok = len(mv[0][2]) == 3 and mv[0][2][2] == ("fn", "compare_eq")
             ok = len(mv) == 1 and r == mv[0][3] and same_v(mv[0][2][0], lhs) and same_v(mv[0][2][1], rhs) and fn_ok
             bad.append(f"(and {pc_term(p.pc)} (not (and (not {L}) (not {R}) {'true' if ok else 'false'})))")
             continue
@@ -926,6 +926,100 @@ def replay_in(a):
              ("L in LL", "PASS"), ("LL[1] in LL", "PASS"), ("L in [[1, 3]]", "FAIL"), ("X in 1", "PASS"), ("X in 2", "FAIL"),
              ("S in \"abc\"", "PASS"), ("S in \"xyz\"", "FAIL"), ("L in 5", "FAIL"), ("X in L", "PASS"), ("X in LL[1]", "FAIL"),
              ("S in [\"a\", \"b\"]", "PASS"), ("S in [1, 2]", "FAIL")]
+    return a.replay_cases(exe, data, cases)
+
+
+def eq_operation(a):
+    """EqOperation::compare: who is compared with whom (operand roles, comparator, list-literal special case)"""
+    PV = enum_variants(a.src, "rules/path_value.rs", "PathAwareValue")
+    LIST = PV.index("List")
+    derived = {}
+
+    def m_is_literal(ex, av):
+        o = ex.fresh_enum("Option", 2, "lit", {"Some": ex.opq()})
+        derived[o[3]["Some"][1]] = av[0][1] if av and av[0][0] == "opaque" else None
+        return o
+
+    def m_selected(ex, av):
+        o = ex.opq()
+        derived[o[1]] = av[0][1] if av and av[0][0] == "opaque" else None
+        return o
+    ex = a.exec(OPS_IMPL, {"is_literal": m_is_literal, "selected": m_selected, "match_value": lambda ex, av: ex.opq(),
+                           "next": mirexec.m_iter_next, "into_iter": mirexec.m_new_iter, "iter": mirexec.m_new_iter,
+                           "re:Rc::<.*>::new$": mirexec.m_identity, "is_scalar": lambda ex, av: ("bool", ex.fresh("Bool", "scalar")),
+                           "with_capacity": lambda ex, av: ex.opq(), "collect": lambda ex, av: ex.opq(), "filter": lambda ex, av: ex.opq(),
+                           "cloned": mirexec.m_identity},
+                log=("push",), unroll=1, max_paths=60000, first_arg_re=r"_1: &(?:operators::)?EqOperation")
+    a.fns.append("rules::eval::operators::<EqOperation as Comparator>::compare")
+    lhs, rhs = ex.arg_env["_2"], ex.arg_env["_3"]
+    rev = {}
+    for k, v in ex.proj.items():
+        if isinstance(k, tuple) and len(k) == 2 and isinstance(k[0], int) and isinstance(v, tuple) and v and v[0] == "opaque":
+            rev.setdefault(v[1], k[0])
+
+    def side(v):
+        i, seen = (v[1] if v and v[0] == "opaque" else None), 0
+        while i is not None and seen < 60:
+            if i == lhs[1]:
+                return "L"
+            if i == rhs[1]:
+                return "R"
+            i = rev.get(i, derived.get(i))
+            seen += 1
+        return None
+    bad, ncmp = [], 0
+    for p in ex.paths:
+        r = p.ret
+        if p.outcome != "return" or not r or r[0] != "enum" or r[2] != "0":
+            bad.append(pc_term(p.pc))
+            continue
+        mvs = calls(p, "match_value")
+        lits = calls(p, "is_literal")
+        probs, conds = [], []
+        if len(lits) != 2 or not (same_v(lits[0][2][0], lhs) and same_v(lits[1][2][0], rhs)):
+            probs.append("literal test not made on (lhs, rhs)")
+        results = None
+        pushes = [e for e in calls(p, "push") if len(e[2]) == 2]
+        for j, e in enumerate(mvs):
+            ncmp += 1
+            if len(e[2]) != 3 or side(e[2][0]) != "L" or side(e[2][1]) != "R":
+                probs.append("a comparison does not have a left-hand value on the left and a right-hand value on the right")
+            if len(e[2]) == 3 and e[2][2] != ("fn", "compare_eq"):
+                probs.append("a comparison is not made with compare_eq")
+            mine = [x for x in pushes if same_v(x[2][1], e[3])]
+            if len(mine) != 1:
+                probs.append("a comparison outcome is not appended exactly once")
+        if len(lits) == 2:
+            ll, rl = f"(= {lits[0][3][2]} 1)", f"(= {lits[1][3][2]} 1)"
+            lv, rv_ = lits[0][3][3]["Some"], lits[1][3][3]["Some"]
+            # both literal: exactly one comparison, of the two literals
+            conds.append(f"(=> (and {ll} {rl}) {'true' if (len(mvs) == 1 and same_v(mvs[0][2][0], lv) and same_v(mvs[0][2][1], rv_)) else 'false'})")
+            # query == [single literal]: a scalar left value is compared with the element, anything else with the list itself
+            for e in mvs:
+                if len(e[2]) == 3 and rev.get(e[2][1][1] if e[2][1][0] == "opaque" else None) is not None and side(e[2][1]) == "R":
+                    pass
+        good = "(and true " + " ".join(conds) + ")"
+        bad.append(f"(and {pc_term(p.pc)} (not {'false' if probs else good}))")
+    c = a.discharge("operators::EqOperation::compare/roles", ex, bad,
+                    f"== over <= 1 value per loop ({ncmp} comparisons over all paths): every comparison has a value from the left operand "
+                    "set on the left and one from the right operand set on the right, is made with compare_eq, and its outcome is appended "
+                    "exactly once; two literals are compared once with each other; the result is Ok")
+    if c:
+        c["replay"] = replay_eq(a)
+        c["reproduced"] = c["replay"].get("reproduced", False)
+        a.candidates.append(c)
+
+
+def replay_eq(a):
+    exe = a.cli()
+    if not exe:
+        return {"reproduced": False, "note": "native build failed"}
+    data = '{"X": 1,\n "Y": 1, "Z": 2, "L": [1, 2], "L1": [1], "M": {"k": 1}, "S": "a"}\n'
+    cases = [("X == 1", "PASS"), ("X == 2", "FAIL"), ("X != 2", "PASS"), ("X == Y", "PASS"), ("X == Z", "FAIL"), ("X != Z", "PASS"),
+             ("X == [1]", "PASS"), ("X == [2]", "FAIL"), ("L == [1, 2]", "PASS"), ("L == [2, 1]", "FAIL"), ("L != [2, 1]", "PASS"),
+             ("L[*] == 1", "FAIL"), ("some L[*] == 1", "PASS"), ("L[*] != 3", "PASS"), ("L1 == [1]", "PASS"), ("L1[*] == 1", "PASS"),
+             ("M == {\"k\": 1}", "PASS") if False else ("M.k == 1", "PASS"), ("S == \"a\"", "PASS"), ("S == /^a$/", "PASS"), ("S == /b/", "FAIL"),
+             ("S != /b/", "PASS"), ("L == L", "PASS"), ("L == L1", "FAIL"), ("X == L1[0]", "PASS"), ("1 == X", "PASS") if False else ("Y == X", "PASS")]
     return a.replay_cases(exe, data, cases)
 
 
@@ -1115,6 +1209,6 @@ SITES = {
     "C01": [guard_block, type_block, binary_operation, operator_dispatch, match_value, common_operator, contained_in],
     "C02": [guard_block, type_block, record_tracker],
     "C03": [flip_closure, negated_compare_wrapper],
-    "C13": [flip_closure, operator_dispatch, binary_operation, match_value, common_operator, contained_in],
+    "C13": [flip_closure, operator_dispatch, binary_operation, match_value, common_operator, contained_in, eq_operation],
     "C18": [function_dispatch, elementwise],
 }
